@@ -2,6 +2,7 @@
 //! cases and write one line per case (`fn<TAB>args...<TAB>impl-output`) for the Lean driver.
 mod alloc;
 mod common;
+mod c06;
 mod c20_scn;
 mod c20;
 mod c14;
@@ -57,6 +58,7 @@ fn exec(prop: &str, f: &[String]) -> Option<String> {
         "C11" => c11::exec(f),
         "C14" => c14::exec(f),
         "C20" => c20::exec(f),
+        "C06" => c06::exec(f),
         _ => None,
     }
 }
@@ -129,6 +131,7 @@ fn main() {
         "C11" => c11::gen(&mut out, thorough, seed),
         "C14" => c14::gen(&mut out, thorough, seed),
         "C20" => c20::gen(&mut out, thorough, seed),
+        "C06" => c06::gen(&mut out, thorough, seed),
         other => {
             eprintln!("unknown property {}", other);
             std::process::exit(2);
